@@ -1019,6 +1019,9 @@ class Ev:
             return B.percent_format(self, a, b, node)
         if isinstance(a, VTuple) and isinstance(b, VTuple) and isinstance(op, ast.Add):
             return VTuple(a.items + b.items)
+        if isinstance(a, VOpaque) and a.sort == "Float" and isinstance(b, VInt) and isinstance(op, ast.Add):
+            from .builtins import ufunc, I as _I
+            return VOpaque(ufunc("float_plus_int", opaque_sort("Float"), _I, opaque_sort("Float"))(a.t, b.t), "Float")
         if isinstance(a, VRef) and isinstance(b, VRef) and isinstance(op, ast.Add):
             return B.list_concat(self, a, b)
         self.unsupported(node, "binary op %s on %r, %r" % (op.__class__.__name__, a, b))
